@@ -65,6 +65,13 @@ def f_ll(xs: list[list[T]]) -> T: ...
 def n_ll(xs: list[list[TC]], y: TC) -> bool: ...
 def n_cb1(cb: Callable[[TC], None]) -> None: ...
 def n_dict(d: dict[TC, TC]) -> bool: ...
+# called with *iterable (unknown length) and **mapping (non-literal keys): round-5 seeded change
+def s_xy(a: T, b: T) -> T: ...
+def s_xyz(a: T, b: T, c: T) -> T: ...
+def ns_c(a: TC, b: TC) -> bool: ...
+def s_c(a: TC, b: TC) -> TC: ...
+def ns_b(a: TB, b: TB, c: TB = 0) -> None: ...
+def s_d(a: TD, b: TD) -> TD: ...
 def f_opt(x: T | None, y: T) -> T: ...
 def f_or(x: T | list[T], y: T) -> T: ...
 def f_opt1(x: T | None) -> T: ...
@@ -118,6 +125,12 @@ SIGS = {
     "n_ll": (n_ll, ["ll", "s"], False),
     "n_cb1": (n_cb1, ["c"], False),
     "n_dict": (n_dict, ["d"], False),
+    "s_xy": (s_xy, ["STAR"], False),
+    "s_xyz": (s_xyz, ["STAR"], False),
+    "ns_c": (ns_c, ["STAR"], False),
+    "s_c": (s_c, ["STAR"], False),
+    "ns_b": (ns_b, ["STAR"], False),
+    "s_d": (s_d, ["STAR"], False),
     "f_opt": (f_opt, ["s", "s"], False),
     "f_or": (f_or, ["sl", "s"], False),
     "f_opt1": (f_opt1, ["s"], False),
@@ -224,6 +237,10 @@ def arg_value(name):
 
             ms = UNION_LISTS.get(name) or UNION_DICTS.get(name) or UNION_CBS[name]
             _vals[name] = MultiValuedValue([arg_value(m) for m in ms])
+        elif name in ("d_str_bool", "d_str_A"):
+            from pyanalyze.value import TypedValue
+
+            _vals[name] = GenericValue(dict, [TypedValue(str), arg_value("t_bool" if name == "d_str_bool" else "t_A")])
         elif name in ("d_int_int", "d_str_str"):
             from pyanalyze.value import TypedValue
 
@@ -262,6 +279,88 @@ NEST_TV = {"f_ll": {0: "~T"}, "n_ll": {0: "~TC"}}
 CB_TV = {"f_cb": {1: "~T"}, "n_cb": {1: "~T"}, "f_cb2": {0: "~T", 1: "~T"}, "f_cbx": {0: "~T", 1: "~T"}, "n_cb2": {0: "~T", 1: "~T"},
          "n_list": {1: "~T"}, "n_cb1": {0: "~TC"}}
 DICT_TV = {"f_dict": {0: ("~K", "~V")}, "n_dict": {0: ("~TC", "~TC")}}
+
+
+# signatures called with star arguments: (type variable of every parameter, number of parameters, of which required)
+STAR_TV = {"s_xy": ("~T", 2, 2), "s_xyz": ("~T", 3, 3), "ns_c": ("~TC", 2, 2), "s_c": ("~TC", 2, 2), "ns_b": ("~TB", 3, 2), "s_d": ("~TD", 2, 2)}
+STAR_LISTS = ["l_int", "l_str", "l_bool", "l_A", "l_B", "tup_int", "ul_int_str", "ul_int_bool"]
+STAR_DICTS = ["d_str_int", "d_str_str", "d_str_bool", "d_str_A", "ud_si_ss"]
+DICT_KV.update({"d_str_bool": (["t_str"], ["t_bool"]), "d_str_A": (["t_str"], ["t_A"]), "ud_si_ss": (["t_str", "t_str"], ["t_int", "t_str"])})
+UNION_DICTS.update({"ud_si_ss": ["d_str_int", "d_str_str"]})
+STAR_SCALARS = ["k1", "kTrue", "ka", "k1_5", "t_int", "t_str", "t_bool", "t_A", "kAinst"]
+
+
+def gen_star_args(rng, sig_name):
+    _, n, req = STAR_TV[sig_name]
+    k = rng.randrange(0, n)
+    args = [rng.choice(STAR_SCALARS) for _ in range(k)]
+    r = rng.random()
+    if r < 0.55:
+        args += ["*" + rng.choice(STAR_LISTS), "**" + rng.choice(STAR_DICTS)]
+    elif r < 0.8:
+        args += ["*" + rng.choice(STAR_LISTS)]
+    else:
+        args += ["**" + rng.choice(STAR_DICTS)]
+    return args
+
+
+def check_star_call(sig_name, arg_names):
+    """a call mixing positionals, *iterable of unknown length and **mapping with unknown keys, against a
+    signature whose parameters are all annotated with one type variable.  The argument-derived lower bounds
+    the harness expects: every positional, the element type of the iterable and the value type of the
+    mapping whenever a parameter is left that they may fill."""
+    import c15_universe as u
+    from pyanalyze.signature import ARGS, KWARGS, _CanAssignBasedContext, preprocess_args
+    from pyanalyze.stacked_scopes import Composite
+    from pyanalyze.value import NO_RETURN_VALUE, AnyValue, TypedValue, unite_values
+
+    c = u.ctx()
+    sig = signature(sig_name)
+    cctx = _CanAssignBasedContext(c)
+    args, lows = [], []
+    tvn, nparams, nreq = STAR_TV[sig_name]
+    npos = sum(1 for n in arg_names if not n.startswith("*"))
+    for n in arg_names:
+        if n.startswith("**"):
+            args.append((Composite(arg_value(n[2:])), KWARGS))
+            if npos < nparams:
+                lows += [arg_value(e) for e in DICT_KV[n[2:]][1]]
+        elif n.startswith("*"):
+            args.append((Composite(arg_value(n[1:])), ARGS))
+            if npos < nparams:
+                lows += [arg_value(e) for e in LIST_ELEMS[n[1:]]]
+        else:
+            args.append((Composite(arg_value(n)), None))
+            lows.append(arg_value(n))
+    pre = preprocess_args(args, cctx)
+    ret = sig.check_call_preprocessed(pre, cctx) if pre is not None else None
+    diagnosed = pre is None or bool(ret.is_error or cctx.errors)
+    out = {"diagnosed": diagnosed, "n_errors": len(cctx.errors), "failures": [], "bounds": len(lows), "solutions": {}, "or_bounds": 0,
+           "arg_rejected": False, "solver_error": False, "unsatisfiable": []}
+    d = DECLARED.get(tvn)
+    cons = [[TypedValue(t) for t in d[1]]] if d and d[0] == "constraints" else []
+    ups = [TypedValue(d[1])] if d and d[0] == "bound" else []
+    cands = [v for _, v in u.atoms()] + lows + ups + [o for cs in cons for o in cs] + [NO_RETURN_VALUE]
+    if lows:
+        cands.append(unite_values(*lows))
+    sat = lambda v: (all(v.is_assignable(x, c) for x in lows) and all(x.is_assignable(v, c) for x in ups)
+                     and all(any(v == o for o in cs) for cs in cons))
+    shown = ", ".join(map(str, lows))
+    if not any(sat(v) for v in cands):
+        out["unsatisfiable"].append(tvn)
+        if not diagnosed:
+            out["failures"].append({"what": f"no candidate value satisfies the lower bounds the positional, * and ** arguments impose on {tvn} ({shown}) but the call is accepted",
+                                    "kind": "unsatisfiable", "accepted": True})
+    elif not diagnosed and sig_name in ("s_xy", "s_xyz", "s_c", "s_d"):
+        sol = ret.return_value
+        out["solutions"][tvn] = str(sol)
+        if not isinstance(sol, AnyValue):
+            for x in lows:
+                if not sol.is_assignable(x, c):
+                    out["failures"].append({"what": f"the value chosen for {tvn} ({sol}) does not accept the argument-derived lower bound {x} (lower bounds: {shown})",
+                                            "kind": "lower", "accepted": True})
+                    break
+    return out
 
 
 def member_bounds(sig_name, arg_names):
@@ -340,6 +439,8 @@ def check_call(sig_name, arg_names):
     from pyanalyze.typevar import resolve_bounds_map
     from pyanalyze.value import AnyValue, CanAssignError, IsOneOf, LowerBound, OrBound, UpperBound, unify_bounds_maps
 
+    if sig_name in STAR_TV:
+        return check_star_call(sig_name, arg_names)
     c = u.ctx()
     sig = signature(sig_name)
     cctx = _CanAssignBasedContext(c)
